@@ -7,6 +7,7 @@ from ..core import Fail
 
 PID = "C16"
 RULE = ("Primitive.square / triangle / regular_polygon / circle / polygon with random valid parameters of all numeric types "
+        "(regular polygons and circles after earlier calls with the same number of sides / arcs and other sizes) "
         "(int, Fraction, float, bool True): vertices, closed-form area, orientation, centre contained, far point not, box; "
         "polygon: vertices kept in order, orientation = given order; circle: every arc within the quadratic band around r "
         "for ndivangle in 4..40, area between the inscribed polygon and the circle of the band; the invalid-parameter "
@@ -123,6 +124,8 @@ def check(ctx, case):
         area, inner, far = sz * sz / 2, (cx + sz / 4, cy + sz / 4), (cx + 2 * sz + 1, cy)
     elif k == "regular":
         n = case["n"]
+        # an earlier call with the same number of sides and other sizes must not influence this one
+        I.outcome(lambda: (P.regular_polygon(n, 3, (1, 1)), P.regular_polygon(n, F(5, 2))))
         r = I.outcome(lambda: P.regular_polygon(n, size, center))
         want = [(cx + sz * F(math.cos(math.tau * i / n)), cy + sz * F(math.sin(math.tau * i / n))) for i in range(n)]
         if n == 4:
@@ -176,6 +179,7 @@ def check(ctx, case):
 def _circle(ctx, case, r_, cx, cy):
     fails = []
     nd = case["nd"]
+    I.outcome(lambda: (I.Primitive.circle(2.5, (1, 2), nd), I.Primitive.circle(3, (0, 0), nd)))     # earlier calls, other sizes
     r = I.outcome(lambda: I.Primitive.circle(case["size"], case["center"], nd))
     if r[0] != "ok":
         return [Fail(kind="O", what="circle raised on valid parameters", impl=r)]
